@@ -23,7 +23,7 @@ CONSTANTS
   Dirs,         \* sequence of configured policy directories (in configured order)
   Loadable,     \* [dir -> sequence of file ids in lexicographic order] - top-level, non-dot regular files
   Ignored,      \* [dir -> set of entry ids that sit in the directory but are not policy files (dot-files, sub-directories)]
-  Defaults      \* sequence of registered defaults [name, body, dep] with dep = [name, body] or [name |-> "", ...]
+  Defaults      \* sequence of registered defaults [name, body, dep, removal] with dep = [name, body] or [name |-> "", ...]
 
 None == [k |-> "none"]
 RolesB(rs) == [k |-> "roles", r |-> rs]
@@ -115,7 +115,8 @@ InitLoader == [rules |-> NoRules, frules |-> NoRules,
 
 \* overwrite: the Enforcer's overwrite mode (TRUE is the default; FALSE merges
 \* what is read into the existing rule store instead of replacing it)
-LoadRulesOv(st0, fs, dirs, force, enforceNew, overwrite) ==
+\* PreMerge: everything load_rules does before it turns to the registered defaults
+PreMerge(st0, fs, dirs, force, overwrite) ==
   LET \* 1. resolve the main file once
       st1 == IF ~st0.path /\ fs[MainFile].exists THEN [st0 EXCEPT !.path = TRUE] ELSE st0
       \* 2. main file through the mtime cache
@@ -125,14 +126,44 @@ LoadRulesOv(st0, fs, dirs, force, enforceNew, overwrite) ==
       st3 == [m.st EXCEPT !.dmt = NewDmt(m.st, fs, dirs)]
       ex == ExistingDirs(dirs)
       \* 4. rebuild from scratch when anything changed
-      st4 == IF forceDirs /\ Len(ex) > 0
-             THEN LET base == IF st3.path
-                              THEN (IF ~m.changed /\ overwrite THEN LoadPolicyFile(st3, MainFile, fs, TRUE, overwrite).st ELSE st3)
-                              ELSE (IF overwrite THEN [st3 EXCEPT !.rules = NoRules, !.frules = NoRules] ELSE st3)
-                  IN WalkDirs(base, ex, 1, fs)
-             ELSE st3
+  IN IF forceDirs /\ Len(ex) > 0
+     THEN LET base == IF st3.path
+                      THEN (IF ~m.changed /\ overwrite THEN LoadPolicyFile(st3, MainFile, fs, TRUE, overwrite).st ELSE st3)
+                      ELSE (IF overwrite THEN [st3 EXCEPT !.rules = NoRules, !.frules = NoRules] ELSE st3)
+          IN WalkDirs(base, ex, 1, fs)
+     ELSE st3
+LoadRulesOv(st0, fs, dirs, force, enforceNew, overwrite) ==
+  LET st4 == PreMerge(st0, fs, dirs, force, overwrite)
       \* 5. registered defaults for names still absent
   IN [st4 EXCEPT !.rules = MergeDefaults(st4.rules, st4.frules, 1, enforceNew)]
+
+(***************************************************************************)
+(* Beyond the listed properties: the deprecation warnings one load_rules   *)
+(* call emits (warnings.warn), in order.  For every registered default:    *)
+(*   "removal"  it is deprecated for removal and operators override it     *)
+(*              (on every call)                                            *)
+(* and, only when the default is merged (its name is not in the store):    *)
+(*   "deprecated"  once when the deprecated, renamed name is overridden in  *)
+(*              the files, and once when the default's check string is     *)
+(*              changing and the old one is OR-ed in (enforce_new_defaults *)
+(*              off, name not overridden) - the two use the same text      *)
+(***************************************************************************)
+RECURSIVE WarnFrom(_, _, _, _)
+WarnFrom(rules, frules, i, enforceNew) ==
+  IF i > Len(Defaults) THEN <<>>
+  ELSE LET d == Defaults[i]
+           rem == IF d.removal = 1 /\ frules[d.name].k # "none" THEN << <<"removal", d.name>> >> ELSE <<>>
+       IN IF rules[d.name].k # "none" THEN rem \o WarnFrom(rules, frules, i + 1, enforceNew)
+          ELSE LET ren == d.dep.name # "" /\ d.dep.name # d.name /\ d.dep.name \in Names /\ frules[d.dep.name].k # "none"
+                   governs == ren /\ frules[d.dep.name] # Alias(d.name) /\ frules[d.name].k = "none"
+                   chg == d.dep.name # "" /\ ~governs /\ ~enforceNew /\ d.dep.body # d.body /\ frules[d.name].k = "none"
+                   body == IF d.dep.name = "" THEN d.body ELSE HandleDeprecated(d, frules, enforceNew)
+               IN rem \o (IF ren THEN << <<"deprecated", d.name>> >> ELSE <<>>)
+                      \o (IF chg THEN << <<"deprecated", d.name>> >> ELSE <<>>)
+                      \o WarnFrom([rules EXCEPT ![d.name] = body], frules, i + 1, enforceNew)
+LoadWarnings(st0, fs, dirs, force, enforceNew, overwrite) ==
+  LET st4 == PreMerge(st0, fs, dirs, force, overwrite) IN WarnFrom(st4.rules, st4.frules, 1, enforceNew)
+
 LoadRules(st0, fs, dirs, force, enforceNew) == LoadRulesOv(st0, fs, dirs, force, enforceNew, TRUE)
 
 (***************************************************************************)
